@@ -896,6 +896,9 @@ func runOneD() {
 func symbolByName(name string) *symbol {
 	var v, r, c, ci int
 	var w string
+	if mk, ok := hintedQR[name]; ok {
+		return mk()
+	}
 	if n, _ := fmt.Sscanf(name, "qr-v%d", &v); n == 1 {
 		return qrSymbol(v)
 	}
@@ -951,6 +954,7 @@ func main() {
 	runDM()
 	runOneD()
 	runLargeScales()
+	runHintedQR()
 	runHistory()
 	chk.Finish()
 }
